@@ -32,9 +32,9 @@ open Pdt Pdt.Reader Pdt.Blocks Pdt.C02
 
 /-! ## 0. constants translated from fixer.py, pinned -/
 
-/-- the stock replacements: False / NaT / NaN -/
+/-- the stock replacements: False / NaT / NaN (the translator sorts the dict literal's entries by key) -/
 theorem fixer_defaults_pinned :
-    Gen.fixerDefaults = [("onoff", "False"), ("datetime", "pd.NaT"), ("float", "np.nan"), ("-", "np.nan")] := by
+    Gen.fixerDefaults = [("-", "np.nan"), ("datetime", "pd.NaT"), ("float", "np.nan"), ("onoff", "False")] := by
   decide
 
 theorem stock_cfg_pinned :
